@@ -43,7 +43,7 @@ REAL_VS_STUB = {"generator CLI incl. httpx.post request building": "real, child 
 URL = "http://schema.test/graphql"
 PEER_FAULTS = (
     [{"kind": "status", "status": s} for s in (301, 400, 401, 404, 500, 503)]
-    + [{"kind": "nonjson", "v": v} for v in range(4)]
+    + [{"kind": "nonjson", "v": v} for v in range(6)]
     + [{"kind": "torn", "at": a} for a in (1, 17, 1000, 50000)]
     + [{"kind": "json_nonobject", "v": v} for v in range(4)]
     + [{"kind": "no_data", "v": v} for v in range(3)]
@@ -202,7 +202,8 @@ def run_case(case, ch: Choices) -> RunResult:
                 continue
             root_b = os.path.join(base, "b%d" % pi)
             # the operations stay in one file: how *they* are split legitimately reorders the client's methods
-            mb = worlds.materialize(world, root_b, spart, None, creation_order_seed=ch.draw("lay.creation", 2 ** 16),
+            decoys = ch.draw("lay.decoys", 2 ** 16) if ch.chance("lay.decoys_on", 1, 2) else None
+            mb = worlds.materialize(world, root_b, spart, None, decoys_seed=decoys, creation_order_seed=ch.draw("lay.creation", 2 ** 16),
                                     tail_seed=ch.draw("lay.tails", 2 ** 16))
             enum_seed = ch.draw("lay.enum", 2 ** 16)
             rb = genrun.run_child(root_b, mb["argv"], mb["targets"], hashseed=ch.pick("env.hs", [0, 1, 2]), enum_seed=enum_seed)
